@@ -379,7 +379,7 @@ Lemma verilog_tail_agrees neg num w passed :
   = res_opt (convert_int (if neg then - num else num) (Some w) false).
 Proof.
   intros Hn Hw Hp Hguard. rewrite convert_int_some. unfold verilog_tail, representableb.
-  replace (1 <=? w) with true by lia. cbn [andb].
+  replace (1 <=? w) with true by lia. replace (w <? 1) with false by lia. cbn [andb].
   assert (Hpass : (match passed with None => false | Some z__ => negb (z__ =? 0) end)
                   && negb (match passed with None => false | Some z__ => z__ =? w end) = false).
   { destruct Hp as [->| ->]; [reflexivity|]. rewrite Z.eqb_refl. apply andb_false_r. }
@@ -415,8 +415,14 @@ Lemma verilog_tail_width_mismatch neg num w p :
 Proof.
   intros H0 Hw. unfold verilog_tail.
   replace (negb (p =? 0)) with true by lia. replace (p =? w) with false by lia. cbn [andb negb].
+  destruct (w <? 1); [reflexivity|].
   destruct (neg && negb (num =? 0)); [destruct (negb (Z.shiftr num (w - 1) =? 0))|]; reflexivity.
 Qed.
+
+(* the width written in the string must be at least 1 *)
+Lemma verilog_tail_zero_width neg num w passed :
+  w < 1 -> is_ok (verilog_tail false neg num w passed) = false.
+Proof. intros Hw. unfold verilog_tail. replace (w <? 1) with true by lia. reflexivity. Qed.
 
 Lemma verilog_tail_signed neg num w passed : verilog_tail true neg num w passed = Err 1.
 Proof. reflexivity. Qed.
